@@ -451,4 +451,59 @@ theorem csvRows_runs (sel : Sel) (recs : List Rec) :
     | nil => exact absurd rfl (runs_ne_nil recs [] (by rw [h]; exact List.mem_cons_self))
     | cons r g2 => simp [List.flatMap_cons]
 
+/-! ### the CSV reader: `dict(zip(fields, row))` -/
+
+theorem lookup_of_unique (l : List (Name × Cell)) (k : Name) (v : Cell) (hmem : (k, v) ∈ l)
+    (huniq : ∀ q ∈ l, q.1 = k → q.2 = v) : lookup l k = some v := by
+  induction l with
+  | nil => cases hmem
+  | cons q rest ih =>
+    by_cases hq : q.1 = k
+    · have := huniq q List.mem_cons_self hq
+      simp [lookup, hq, this]
+    · have hmem' : (k, v) ∈ rest := by
+        rcases List.mem_cons.mp hmem with h | h
+        · exact absurd (by rw [← h]) hq
+        · exact h
+      have := ih hmem' (fun q' hq' => huniq q' (List.mem_cons_of_mem _ hq'))
+      simp only [lookup, List.find?_cons] at this ⊢
+      have hne : (q.1 == k) = false := by simpa using hq
+      rw [hne]; exact this
+
+theorem unique_of_nodup_keys (ps : List (Name × Cell)) (h : (ps.map (·.1)).Nodup) (k : Name) (v : Cell)
+    (hmem : (k, v) ∈ ps) : ∀ q ∈ ps, q.1 = k → q.2 = v := by
+  induction ps with
+  | nil => cases hmem
+  | cons p rest ih =>
+    simp only [List.map_cons, List.nodup_cons] at h
+    obtain ⟨hnotin, hrest⟩ := h
+    intro q hq hk
+    rcases List.mem_cons.mp hmem with h1 | h1 <;> rcases List.mem_cons.mp hq with h2 | h2
+    · rw [h2, ← h1]
+    · exfalso; apply hnotin
+      have : p.1 = k := by rw [← h1]
+      rw [this, ← hk]; exact List.mem_map.mpr ⟨q, h2, rfl⟩
+    · exfalso; apply hnotin
+      have : p.1 = k := by rw [← h2]; exact hk
+      rw [this]; exact List.mem_map.mpr ⟨(k, v), h1, rfl⟩
+    · exact ih hrest h1 q h2 hk
+
+theorem zip_lookup (hdr : List Name) (row : Row) (hn : hdr.Nodup) (hlen : row.length = hdr.length) :
+    hdr.map (fun n => lookup (hdr.zip row).reverse n) = row.map some := by
+  have hfst : (hdr.zip row).map (·.1) = hdr := List.map_fst_zip (by omega)
+  have hsnd : (hdr.zip row).map (·.2) = row := List.map_snd_zip (by omega)
+  have hkeys : ((hdr.zip row).map (·.1)).Nodup := by rw [hfst]; exact hn
+  have key : ∀ p ∈ hdr.zip row, lookup (hdr.zip row).reverse p.1 = some p.2 := by
+    intro p hp
+    apply lookup_of_unique
+    · exact List.mem_reverse.mpr hp
+    · intro q hq hk
+      exact unique_of_nodup_keys (hdr.zip row) hkeys p.1 p.2 hp q (List.mem_reverse.mp hq) hk
+  calc hdr.map (fun n => lookup (hdr.zip row).reverse n)
+      = ((hdr.zip row).map (·.1)).map (fun n => lookup (hdr.zip row).reverse n) := by rw [hfst]
+    _ = (hdr.zip row).map (fun p => lookup (hdr.zip row).reverse p.1) := by simp [List.map_map]
+    _ = (hdr.zip row).map (fun p => some p.2) := List.map_congr_left key
+    _ = ((hdr.zip row).map (·.2)).map some := by simp [List.map_map]
+    _ = row.map some := by rw [hsnd]
+
 end FlowRecord.Csv
